@@ -171,6 +171,26 @@ def _payload(rng, exact_only):
     return [rng.uniform(-1, 1) * 10.0 ** rng.randint(-300, 300) for _ in range(3)]
 
 
+NEGZERO_SITE = 'ref_gather:sum-padding-loses-negative-zero'
+
+
+def _signed_zero_failures(i, np, vals, exp, what):
+    """C07 'pure data movement is bit-identical': a value of -0.0 must arrive as -0.0.  The chunked gathers of ref_gather.c
+    reduce (owner's value + 0.0 padding of every other rank) with MPI_SUM, and -0.0 + 0.0 = +0.0: with more than one rank
+    the sign of a negative zero is lost (known finding, tagged ONLY for exactly this pattern: expected -0.0, got +0.0,
+    np >= 2); any other sign-of-zero difference is an ordinary failure"""
+    import math as _m
+    out = []
+    for k, (a, b) in enumerate(zip(vals, exp)):
+        if a == 0.0 and b == 0.0 and _m.copysign(1.0, a) != _m.copysign(1.0, b):
+            msg = 'C07 %s %d: the owner holds %r, the gather wrote %r (np=%d): not bit-identical' % (what, k // 3, b, a, np)
+            if _m.copysign(1.0, b) < 0 and np >= 2:
+                out.append((i, msg, NEGZERO_SITE))
+            else:
+                out.append((i, msg))
+    return out[:3]
+
+
 def gen_gather_node(rng, tier, np):
     ops = []
     n = 60 if tier == 'quick' else 400
@@ -272,6 +292,8 @@ def oracle_gather_node(ops, impl):
                 k = [a == b for a, b in zip(vals, exp)].index(False)
                 bad.append((i, 'C07 gathered vertex %d differs from its owner\'s payload (np=%d, limit=%d): %r vs %r' %
                             (k // 3, np, rbl, vals[k], exp[k])))
+            else:
+                bad += _signed_zero_failures(i, np, vals, exp, 'gathered vertex')
         elif out[0] == 'ok':
             g = [len(x) == 1 for x in owners].index(False)
             bad.append((i, 'C04 global %d has %d owners but the gather reported success' % (g, len(owners[g]))))
@@ -457,6 +479,7 @@ def oracle_gather_file(ops, impl):
         if vals != [x for g in range(N) for x in own[g][0]]:
             bad.append((i, 'C07 vertices in the file are not the owners\' coordinates in global order (np=%d)' % np))
             continue
+        bad += _signed_zero_failures(i, np, vals, [x for g in range(N) for x in own[g][0]], 'file vertex')
         k = 2 + 3 * N
         nt = int(out[k])
         got_t = sorted(tuple(int(x) - (1 if j % 4 < 3 else 0) for j, x in enumerate(out[k + 1:k + 1 + 4 * nt]))[4 * m:4 * m + 4]
